@@ -4,8 +4,10 @@ import (
 	"bytes"
 	"encoding/json"
 	"fmt"
+	"github.com/gogo/protobuf/proto"
 	"os"
 	"path/filepath"
+	"reflect"
 	"runtime"
 	"strings"
 	"sync"
@@ -245,6 +247,32 @@ func TestC20PureRace(t *testing.T) {
 		for i := 0; i < nShared; i++ {
 			shared = append(shared, genHostileMsg(rt))
 		}
+		// valid messages in unusual but legal spellings (upper-case bech32, padded free text):
+		// code that normalises its input in place shows up as a write on a shared message
+		for i, n := 0, rapid.IntRange(1, 3).Draw(rt, "legal-spellings"); i < n; i++ {
+			m := genValidMsg(rt, rapid.IntRange(0, len(msgFactories)-1).Draw(rt, "valid-type"))
+			var walk func(v reflect.Value)
+			walk = func(v reflect.Value) {
+				switch v.Kind() {
+				case reflect.Ptr, reflect.Interface:
+					if !v.IsNil() {
+						walk(v.Elem())
+					}
+				case reflect.Struct:
+					for j := 0; j < v.NumField(); j++ {
+						if v.Type().Field(j).PkgPath == "" {
+							walk(v.Field(j))
+						}
+					}
+				case reflect.String:
+					if v.CanSet() && strings.HasPrefix(v.String(), "panacea1") {
+						v.SetString(strings.ToUpper(v.String()))
+					}
+				}
+			}
+			walk(reflect.ValueOf(m))
+			shared = append(shared, m)
+		}
 		G := 2 + rapid.IntRange(0, 14).Draw(rt, "goroutines")
 		iters := 30 + rapid.IntRange(0, 60).Draw(rt, "iters")
 		type exp struct {
@@ -275,9 +303,15 @@ func TestC20PureRace(t *testing.T) {
 			}
 			return x
 		}
+		// the sequential reference is computed on a copy: the shared instance itself is touched
+		// for the first time by the concurrent goroutines
 		want := make([]exp, len(shared))
 		for i, m := range shared {
-			want[i] = compute(m)
+			cp := reflect.New(reflect.TypeOf(m).Elem()).Interface().(sdk.Msg)
+			if err := proto.Unmarshal(protoOf(m), cp); err != nil {
+				cp = m
+			}
+			want[i] = compute(cp)
 		}
 		var failure atomic.Value
 		var wg sync.WaitGroup
